@@ -479,7 +479,10 @@ class Interp:
         cls = ClassVal(node, m, bases)
         for st in node.body:
             if isinstance(st, ast.FunctionDef):
-                cls.methods[st.name] = FuncVal(st, m, m.env, cls=cls, qual=f"{node.name}.{st.name}")
+                fv = FuncVal(st, m, m.env, cls=cls, qual=f"{node.name}.{st.name}")
+                decos = {ast.unparse(d).split(".")[-1].split("(")[0] for d in st.decorator_list}
+                fv.kind = "property" if ("property" in decos or "cached_property" in decos) else ("static" if "staticmethod" in decos else ("class" if "classmethod" in decos else "method"))
+                cls.methods[st.name] = fv
             elif isinstance(st, ast.AnnAssign) and isinstance(st.target, ast.Name):
                 cls.fields.append((st.target.id, st.value))
             elif isinstance(st, ast.Assign):
@@ -610,6 +613,8 @@ class Interp:
         fn = f.node
         env = Env(f.env)
         a = fn.args
+        if getattr(f, "kind", "method") == "static" and f.cls is not None and args and isinstance(args[0], Obj) and len(args) > len(a.posonlyargs + a.args) and a.vararg is None:
+            args = list(args)[1:]
         params = [p.arg for p in a.posonlyargs + a.args]
         defaults = a.defaults
         ndef = len(defaults)
@@ -758,6 +763,48 @@ class Interp:
                 continue
         if not broke and st.orelse:
             self.exec_block(st.orelse, env)
+
+    def s_Try(self, st, env):
+        try:
+            self.exec_block(st.body, env)
+        except RepoRaise as e:
+            for h in st.handlers:
+                names = []
+                if h.type is not None:
+                    names = [ast.unparse(x).split(".")[-1] for x in (h.type.elts if isinstance(h.type, ast.Tuple) else [h.type])]
+                if h.type is None or e.exc_name.split(".")[-1] in names or "Exception" in names or "BaseException" in names:
+                    if h.name:
+                        env.set(h.name, Ext("exception." + e.exc_name))
+                    self.exec_block(h.body, env)
+                    break
+            else:
+                raise
+        else:
+            self.exec_block(st.orelse, env)
+        finally:
+            if st.finalbody:
+                self.exec_block(st.finalbody, env)
+
+    def s_With(self, st, env):
+        for item in st.items:
+            v = self.eval(item.context_expr, env)
+            if item.optional_vars is not None:
+                self.assign(item.optional_vars, v, env)
+        self.exec_block(st.body, env)
+
+    def s_While(self, st, env):
+        guard = 0
+        while self.truth(self.eval(st.test, env), st.test):
+            guard += 1
+            if guard > 10000:
+                raise self.err("while loop does not terminate on static values", st)
+            try:
+                self.exec_block(st.body, env)
+            except _Break:
+                return
+            except _Continue:
+                continue
+        self.exec_block(st.orelse, env)
 
     def s_Global(self, st, env):
         self.event("global-stmt", st)
@@ -977,6 +1024,13 @@ class Interp:
                 return o.f[attr]
             m = o.cls.find(attr)
             if m is not None:
+                kind = getattr(m, "kind", "method")
+                if kind == "property":
+                    return self.call(m, [o], {}, n)
+                if kind == "static":
+                    return m
+                if kind == "class":
+                    return BoundMethod(m, o.cls)
                 return BoundMethod(m, o)
             for c in o.cls.mro():
                 if attr in c.class_attrs:
@@ -999,6 +1053,8 @@ class Interp:
         if isinstance(o, ClassVal):
             m = o.find(attr)
             if m is not None:
+                if getattr(m, "kind", "method") == "class":
+                    return BoundMethod(m, o)
                 return m
             raise self.err(f"class {o.name} has no attribute {attr}", n)
         if isinstance(o, _Super):
